@@ -445,8 +445,18 @@ def sched_strategy(draw, cfg, role, horizon):
             # consumers stall more often than producers, and they start with a stall (otherwise most bypass builds with
             # ratio > 1 would never leave bypass mode)
             kinds = ["stall_long", "stall_thr", "trickle", "duty_slow"] if si == 0 else kinds + ["stall_long", "stall_thr", "trickle"]
+        if role == "prod":
+            kinds = kinds + ["gap_sweep"]
         kind = draw(st.sampled_from(kinds))
-        if kind == "stall_long":
+        if kind == "gap_sweep":
+            # short bursts separated by gaps that walk through a range: the arrival time of a word relative to what the device is doing
+            # (a mode switch, a pointer wrap) sweeps over every phase
+            b = draw(st.integers(1, 3))
+            g0 = draw(st.integers(0, 8))
+            reps = draw(st.integers(1, 3))
+            for g in range(g0, g0 + draw(st.integers(4, 12))):
+                segs.append([(b + g) * reps, b, g])
+        elif kind == "stall_long":
             segs.append([draw(st.integers(capw // 2, 2 * capw + 40)), 0, 1])
         elif kind == "stall_thr":
             segs.append([draw(st.integers(max(1, thr - 4), thr + 3 * r + 12)), 0, 1])
